@@ -636,6 +636,9 @@ class CEval:
             a = e.get('args', [])
             if short in ('fabs', 'abs') and len(a) == 1:
                 return abs(self.ev(a[0]))
+            if short in ('max', 'min') and len(a) == 2 and q.startswith('std::'):
+                l_, r_ = self.ev(a[0]), self.ev(a[1])
+                return max(l_, r_) if short == 'max' else min(l_, r_)
             if short == 'isnan' and len(a) == 1:
                 v = self.ev(a[0])
                 return isinstance(v, float) and math.isnan(v)
